@@ -381,7 +381,9 @@ impl TypeChecker {
                 for Span { typ, offset, .. } in types {
                     match self.abi_type_for_impl(typ, seen_exprs, ParentType::Packed)? {
                         AbiValue::Packed(xs) => {
-                            pairs.extend(xs.into_iter().map(|(ty, ofs)| (ty, ofs + offset)));
+                            pairs.extend(
+                                xs.into_iter().map(|(ty, ofs)| (ty, ofs.saturating_add(offset))),
+                            );
                         }
                         AbiValue::Type(ty) => pairs.push((ty.clone(), offset)),
                     }
